@@ -252,8 +252,7 @@ class OrderedTupleFamily(Family):
             got = bool(GateSequenceGenerator.get_mutually_allowed(ops, L))
             if got != want:
                 res.fail('C16-accept', 'gates %r (in this order): accepted=%r, reference predicate says %r' % (edges, got, want))
-            if len(ops) != len(before) or any(a is not b for a, b in zip(ops, before)):
-                res.fail('C16-accept-mutates-input', 'gates %r: get_mutually_allowed changed the list it was given' % (edges,))
+            mutated = int(len(ops) != len(before) or any(a is not b for a, b in zip(ops, before)))   # counted, not judged (not part of the statement)
         gen = GateSequenceGenerator(included_edge_ids=objs, connectivity=L)
         ident = gen.construct_allowed_gate_sequences(subgroup_size=size, max_combinations=10 ** 6)
         n = 0
@@ -265,7 +264,7 @@ class OrderedTupleFamily(Family):
             for st in steps:
                 if not freq.accepted(list(st)):
                     res.fail('C16-generator-step', 'edge list %r, subgroup size %d: emitted step %r is not accepted by the predicate' % (edges, size, st))
-        res.extra = {'accepted-single-step-not-emitted': int(kind == 'tuple' and want and n == 0)}
+        res.extra = {'accepted-single-step-not-emitted': int(kind == 'tuple' and want and n == 0), 'argument-list-changed': mutated if kind == 'tuple' else 0}
         res.outcome = (case, n)
         res.transitions = 1 + n
         res.trivial = bool(want) and kind == 'tuple'
